@@ -630,7 +630,7 @@ func (n *vfNet) ListenPacket(network, address string) (net.PacketConn, error) {
 	return n.ListenUDP(network, ua)
 }
 
-func (n *vfNet) ListenUDP(_ string, la *net.UDPAddr) (transport.UDPConn, error) {
+func (n *vfNet) ListenUDP(network string, la *net.UDPAddr) (transport.UDPConn, error) {
 	n.sw.mu.Lock()
 	defer n.sw.mu.Unlock()
 	n.sw.listens++
@@ -640,6 +640,9 @@ func (n *vfNet) ListenUDP(_ string, la *net.UDPAddr) (transport.UDPConn, error) 
 	ip, ok := netip.AddrFromSlice(la.IP)
 	if !ok {
 		ip = netip.IPv4Unspecified()
+		if network == "udp6" {
+			ip = netip.IPv6Unspecified() // like the kernel: an unspecified udp6 listener is [::]
+		}
 	}
 	ip = ip.Unmap()
 	port := uint16(la.Port) //nolint:gosec
